@@ -12,9 +12,10 @@ package; package name = class `filename` = `rel_path.to_str()`; class name =
 `rel_path.file_stem()` (unix `Path` semantics, modelled on bytes below); class lines = one `Line`
 per key of `result.lines` in key order, built by the closure `line_from_number` (hits from
 `lines`, `Line::Branch` with one `Condition` per element of the branch vector when
-`result.branches` has the line); one `Method` per entry of `result.functions` (a hash map: the
-model takes the function list in the order given and all theorems are stated through membership /
-position in that list), whose lines are the keys `x` of `result.lines` with
+`result.branches` has the line); one `Method` per entry of `result.functions` (the model takes the
+function list in the order it is LISTED – `sorted_functions`, name order, demangled names: supplied
+by `Writers/FnOrder.lean`, whose `FnOrder.cobertura dm` / `FnOrder.ade dm` apply this model to
+`listed dm c`), whose lines are the keys `x` of `result.lines` with
 `function.start <= x < func_end`, `func_end` = the first element of the sorted start list that is
 `> function.start`, else `last line key + 1`.
 
@@ -130,7 +131,8 @@ def docClass (rel : Name) (c : Cov) : DocClass :=
 def docPackage (rel : Name) (c : Cov) : DocPackage :=
   { name := rel, classes := [docClass rel c] }
 
-/-- `get_coverage(results, sources, ..)` with demangling off -/
+/-- `get_coverage(results, sources, ..)` on records whose function tables are in listing order
+(`Writers.listed dm`: sorted by mangled name, printed demangled) -/
 def coberturaPackages (rs : List (Name × Cov)) : List DocPackage :=
   rs.map fun r => docPackage r.1 r.2
 
